@@ -374,7 +374,8 @@ class Result:
         os.makedirs(REPLAYS, exist_ok=True)
         idx = len(self.violations)
         path = os.path.join(REPLAYS, "%s_%d.json" % (self.pid, idx))
-        with open(path, "w") as f:
+        # (values delivered by a broken implementation may hold lone surrogates: written with escapes)
+        with open(path, "w", encoding="utf8", errors="backslashreplace") as f:
             json.dump({"property": self.pid, "what": what, "replay": replay_obj, "seed": self.seed, "tier": self.tier},
                       f, indent=1, ensure_ascii=False)
         self.violations.append({"what": what, "replay": path, "no_input": no_input})
@@ -388,7 +389,7 @@ class Result:
         }
         ev["coverage"].update(self.notes)
         os.makedirs(os.path.join(VERIF, "evidence"), exist_ok=True)
-        with open(os.path.join(VERIF, "evidence", self.pid + ".json"), "w") as f:
+        with open(os.path.join(VERIF, "evidence", self.pid + ".json"), "w", encoding="utf8", errors="backslashreplace") as f:
             json.dump(ev, f, indent=1, ensure_ascii=False)
         for k in self.known:
             print("KNOWN-FINDING: property=%s %s" % (self.pid, k))
